@@ -15,7 +15,7 @@ import numpy as np
 
 from . import common as C
 
-IMPORTS = "From SV Require Import Run_Compare.\nOpen Scope Q_scope."
+IMPORTS = "From SV Require Import Run_Compare.\nOpen Scope Q_scope.\nOpen Scope float_scope."
 ANCHORS = [("shangrla/core/Audit.py",
             ["Assorter.overstatement", "Assertion.overstatement_assorter", "Assertion.set_margin_from_cvrs",
              "Assertion.set_all_margins_from_cvrs", "Assorter.set_tally_pool_means", "Assorter.mean",
@@ -197,8 +197,24 @@ def res_lit(r, f):
 ATYPE = {"POLLING": "Polling", "CARD_COMPARISON": "Comparison", "ONEAUDIT": "OneAudit"}
 
 
-def xl(v):
-    return C.xlit(float(v)) if not isinstance(v, F) else C.xlit(v)
+def fl_lit(v):
+    """IEEE double -> Coq primitive float literal (exact; hex).  Parsing a 16-digit numeral into Z/positive costs ~1 ms
+    in Coq, a primitive float literal nothing; Run_Compare.fx converts it exactly to Xq inside Coq."""
+    v = float(v)
+    if v != v:
+        return "nan"
+    if v in (float("inf"), float("-inf")):
+        return "infinity" if v > 0 else "neg_infinity"
+    h = v.hex()
+    return f"({h})" if h.startswith("-") else h
+
+
+def nl(l):
+    return C.listlit([C.natlit(i) for i in l])
+
+
+def fll(l):
+    return C.listlit([fl_lit(x) for x in l])
 
 
 def dict_lit(items, f):
@@ -214,29 +230,27 @@ def pool_case_lit(c):
 
 
 def cmp_case_lit(c):
-    ql = lambda l: C.listlit([C.qlit(x) for x in l])
-    pairs = C.listlit([f"({m}, {v})" for m, v in c["pairs"]])
-    means = res_lit(c["impl_means"], lambda d: dict_lit(d, xl))
-    data = res_lit(c["impl_data"], lambda du: f"({C.listlit([xl(x) for x in du[0]])}, {xl(du[1])})")
-    bl = lambda l: C.listlit([res_lit(r, xl) for r in l])
-    return (f"mkcmp {ql(c['tab'])} {C.zlit(c['cid'])} {C.qlit(c['ua'])} {ATYPE[c['atype']]} {C.listlit(c['cvrs'])} "
+    pairs = C.listlit([f"({C.natlit(m)}, {C.natlit(v)})" for m, v in c["pairs"]])
+    means = res_lit(c["impl_means"], lambda d: dict_lit(d, fl_lit))
+    data = res_lit(c["impl_data"], lambda du: f"({fll(du[0])}, {fl_lit(du[1])})")
+    bl = lambda l: C.listlit([res_lit(r, fl_lit) for r in l])
+    return (f"mkcmp {fll(c['tab'])} {C.zlit(c['cid'])} {fl_lit(c['ua'])} {ATYPE[c['atype']]} {C.listlit(c['objs'])} "
+            f"{C.natlit(c['ncvr'])} "
             f"{C.zlit(c['means_mode'])} {C.listlit([C.zlit(x) for x in c['means_arg']])} {C.blit(c['means_style'])} "
-            f"{means} {C.blit(c['s_style'])} {C.blit(c['c_style'])} {C.optlit(c['margin_given'], xl)} "
-            f"{xl(c['impl_margin'])} {xl(c['impl_u0'])} {pairs} {bl(c['impl_B_on'])} {bl(c['impl_B_off'])} "
-            f"{C.listlit(c['mvrs'])} {C.listlit(c['scvrs'])} {C.qlit(c['thr'])} {C.blit(c['use_all'])} {data}")
+            f"{means} {C.blit(c['s_style'])} {C.blit(c['c_style'])} {C.optlit(c['margin_given'], fl_lit)} "
+            f"{fl_lit(c['impl_margin'])} {fl_lit(c['impl_u0'])} {pairs} {bl(c['impl_B_on'])} {bl(c['impl_B_off'])} "
+            f"{nl(c['mvrs'])} {nl(c['scvrs'])} {C.qlit(c['thr'])} {C.blit(c['use_all'])} {data}")
 
 
 def spv_case_lit(c):
-    ql = lambda l: C.listlit([C.qlit(x) for x in l])
     asns = C.listlit([
-        f"(mkspv_asn {ql(a['tab'])} {C.zlit(a['cid'])} {C.blit(a['style'])} {ATYPE[a['atype']]} {C.qlit(a['thr'])} "
-        f"{xl(a['margin'])} {C.qlit(a['ua'])} {C.optlit(a['means'], lambda d: dict_lit(d, xl))} {xl(a['u_before'])} "
-        f"{C.optlit(a['override'], xl)})" for a in c["asns"]])
-    setall = C.optlit(c["setall"], lambda s: f"({C.listlit(s[0])}, {C.blit(s[1])})")
-    isa = f"({C.listlit([f'({xl(m)}, {xl(u)})' for m, u in c['impl_setall'][0]])}, {xl(c['impl_setall'][1])})"
-    impl = res_lit(c["impl"], lambda l: C.listlit(
-        [f"({xl(u)}, {C.listlit([xl(x) for x in d])}, {xl(ue)})" for u, d, ue in l]))
-    return f"mkspv {asns} {setall} {isa} {C.listlit(c['mvrs'])} {C.listlit(c['cvrs'])} {impl}"
+        f"(mkspv_asn {fll(a['tab'])} {C.zlit(a['cid'])} {C.blit(a['style'])} {ATYPE[a['atype']]} {C.qlit(a['thr'])} "
+        f"{fl_lit(a['margin'])} {fl_lit(a['ua'])} {C.optlit(a['means'], lambda d: dict_lit(d, fl_lit))} "
+        f"{fl_lit(a['u_before'])} {C.optlit(a['override'], fl_lit)})" for a in c["asns"]])
+    setall = C.optlit(c["setall"], lambda s: f"({C.natlit(s[0])}, {C.blit(s[1])})")
+    isa = f"({C.listlit([f'({fl_lit(m)}, {fl_lit(u)})' for m, u in c['impl_setall'][0]])}, {fl_lit(c['impl_setall'][1])})"
+    impl = res_lit(c["impl"], lambda l: C.listlit([f"({fl_lit(u)}, {fll(d)}, {fl_lit(ue)})" for u, d, ue in l]))
+    return f"mkspv {C.listlit(c['objs'])} {asns} {setall} {isa} {nl(c['mvrs'])} {nl(c['cvrs'])} {impl}"
 
 
 # ---------------------------------------------------------------------------------------------- the real code
@@ -315,6 +329,14 @@ def assort_table(asn, objs):
     return tab, errs
 
 
+def differs(a, b):
+    """two implementation floats differ by more than the tolerance (non-finite values differ from everything else)"""
+    a, b = float(a), float(b)
+    if a != a or b != b or abs(a) == float("inf") or abs(b) == float("inf"):
+        return not (a == b)
+    return abs(C.frac(a) - C.frac(b)) > TOL
+
+
 def call(f):
     try:
         with warnings.catch_warnings():
@@ -370,8 +392,8 @@ def run_world(rng, spec):
     n = len(cvrs)
     nums = list(range(1, n + 1))
     wr.shuffle(nums)
-    if wr.random() < 0.2:
-        nums = [x * 2 ** 200 + wr.randint(0, 2 ** 64) for x in nums]
+    if wr.random() < 0.1:
+        nums = [x * 2 ** 70 + wr.randint(0, 2 ** 32) for x in nums]
     for c, s in zip(cvrs, nums):
         c.sample_num = s
     mvr_specs = [gen_mvr(wr, spec, cons, c) for c in cvrs]
@@ -473,13 +495,13 @@ def run_world(rng, spec):
         else:
             impl_data = ("raise", rc[1])
             hit("mvrs_to_data raised " + rc[1])
-        case = {"tab": tab, "cid": ids.c(cid), "ua": ua, "atype": con["atype"], "cvrs": [clit(c) for c in cvrs],
+        case = {"tab": tab, "cid": ids.c(cid), "ua": ua, "atype": con["atype"], "objs": [clit(o) for o in objs], "ncvr": n,
                 "means_mode": mode, "means_arg": [ids.p(l) for l in arg_labels], "means_style": m_style,
                 "impl_means": impl_means, "s_style": s_style, "c_style": c_style, "margin_given": margin_given,
                 "impl_margin": impl_margin, "impl_u0": impl_u0,
-                "pairs": [(clit(mvrs[mi]), clit(cvrs[ci])) for mi, ci in pair_idx],
-                "impl_B_on": B_on, "impl_B_off": B_off, "mvrs": [clit(m) for m in s_mvrs],
-                "scvrs": [clit(c) for c in s_cvrs], "thr": F(thr), "use_all": use_all, "impl_data": impl_data,
+                "pairs": [(n + mi, ci) for mi, ci in pair_idx],
+                "impl_B_on": B_on, "impl_B_off": B_off, "mvrs": [n + i for i in sample],
+                "scvrs": list(sample), "thr": F(thr), "use_all": use_all, "impl_data": impl_data,
                 "meta": {"contest": cid, "assertion": a, "kind": con["kind"], "how": how, "sample": sample,
                          "pools_completed": pools_completed}}
         out["cmp"].append(case)
@@ -514,10 +536,10 @@ def run_world(rng, spec):
                 hit("MVR lacks the contest")
             dv = tab[hmvr[id(mvrs[mi])]] - tab[hcvr[id(cvrs[ci])]]
             if dv and not mvrs[mi].phantom:
-                hit(f"discrepancy {'+' if dv > 0 else '-'}{abs(dv)/ua} u")
+                hit(f"discrepancy {'+' if dv > 0 else '-'}{round(float(abs(dv) / ua), 2)} u")
         hit(f"assertion {con['kind']}/{con['atype']}/style={c_style}")
     # ---- all assertions together: margins set in different ways, then set_p_values
-    sp = run_spv(M, ids, wr, spec, contests, audit, cvrs, mvrs, s_cvrs, s_mvrs, all_asns, tabs, clit, hit, out)
+    sp = run_spv(M, ids, wr, spec, contests, audit, cvrs, mvrs, sample, all_asns, tabs, [clit(o) for o in objs], hit, out)
     out["spv"].append(sp)
     return out
 
@@ -580,7 +602,7 @@ def oracle_data(asn, con, cid, ua, s_mvrs, s_cvrs, thr, use_all, impl_data, marg
         return bad
     d, u = impl_data[1]
     want_u = ua if polling else 2 / (2 - v / ua)
-    if u != u or abs(C.frac(u) - want_u) > TOL:
+    if differs(u, float(want_u)):
         bad.append(("the u returned by mvrs_to_data is not the documented bound",
                     {"u": u, "expected": float(want_u), "audit_type": con["atype"]}))
         return bad
@@ -609,8 +631,10 @@ def oracle_data(asn, con, cid, ua, s_mvrs, s_cvrs, thr, use_all, impl_data, marg
     return bad
 
 
-def run_spv(M, ids, wr, spec, contests, audit, cvrs, mvrs, s_cvrs, s_mvrs, all_asns, tabs, clit, hit, out):
+def run_spv(M, ids, wr, spec, contests, audit, cvrs, mvrs, sample, all_asns, tabs, obj_lits, hit, out):
     cons = spec["cons"]
+    n = len(cvrs)
+    s_cvrs, s_mvrs = [cvrs[i] for i in sample], [mvrs[i] for i in sample]
     s_style = spec["s_style"]
     # state before
     asns_lit = []
@@ -623,10 +647,11 @@ def run_spv(M, ids, wr, spec, contests, audit, cvrs, mvrs, s_cvrs, s_mvrs, all_a
                          "u_before": fl(asn.test.u), "override": None})
     setall, impl_setall = None, ([], float("inf"))
     if wr.random() < 0.45:
-        pop = cvrs if wr.random() < 0.8 else cvrs[: max(1, len(cvrs) // 2)]
+        npop = n if wr.random() < 0.8 else max(1, n // 2)
+        pop = cvrs[:npop]
         rc = call(lambda: M.Assertion.set_all_margins_from_cvrs(audit=audit, contests=contests, cvr_list=pop))
         if rc[0] == "ok":
-            setall = ([clit(c) for c in pop], s_style)
+            setall = (npop, s_style)
             impl_setall = ([(fl(asn.margin), fl(asn.test.u)) for _, _, asn in all_asns], fl(rc[1]))
             hit("set_all_margins_from_cvrs")
         else:
@@ -693,11 +718,11 @@ def run_spv(M, ids, wr, spec, contests, audit, cvrs, mvrs, s_cvrs, s_mvrs, all_a
                 out["oracle"].append({"what": "set_p_values runs the tests in an unexpected order", "input": inp(),
                                       "observed": [l[0] for l in log], "signature": "C06:order", "prop": "C06"})
                 break
-            if abs(C.frac(u_call) - C.frac(u_ret)) > TOL:
+            if differs(u_call, u_ret):
                 out["oracle"].append({"what": "set_p_values runs the test before the bound u returned by mvrs_to_data is installed",
                                       "input": inp(), "observed": {"test.u when test() ran": u_call, "u returned": u_ret},
                                       "signature": "C06:u-not-installed", "prop": "C06"})
-            elif abs(C.frac(fl(asn.test.u)) - C.frac(u_ret)) > TOL:
+            elif differs(fl(asn.test.u), u_ret):
                 out["oracle"].append({"what": "after set_p_values assertion.test.u differs from the u returned by mvrs_to_data",
                                       "input": inp(), "observed": {"test.u": fl(asn.test.u), "u returned": u_ret},
                                       "signature": "C06:u-after", "prop": "C06"})
@@ -705,8 +730,8 @@ def run_spv(M, ids, wr, spec, contests, audit, cvrs, mvrs, s_cvrs, s_mvrs, all_a
                 out["oracle"].append({"what": "a datum handed to the test lies outside [0, test.u]", "input": inp(),
                                       "observed": {"data": d_call, "test.u": u_call}, "signature": "C06:data-outside-u",
                                       "prop": "C06"})
-    return {"asns": asns_lit, "setall": setall, "impl_setall": impl_setall, "mvrs": [clit(m) for m in s_mvrs],
-            "cvrs": [clit(c) for c in s_cvrs], "impl": impl,
+    return {"objs": obj_lits, "asns": asns_lit, "setall": setall, "impl_setall": impl_setall,
+            "mvrs": [n + i for i in sample], "cvrs": list(sample), "impl": impl,
             "meta": {"assertions": [(c["id"], a) for c, a, _ in all_asns]}}
 
 
@@ -771,13 +796,13 @@ def report(ctx, res, pool, cmp_, spv, stats, facts):
                  for r in c["impl_B_on"] + c["impl_B_off"] if r[0] == "raise" or r[1] == r[1]) \
             if c["impl_margin"] == c["impl_margin"] else False
         if nt:
-            res.nontrivial.add(repr((c["cvrs"], c["pairs"], c["tab"], c["means_mode"], c["thr"])))
+            res.nontrivial.add(repr((c["objs"], c["pairs"], c["tab"], c["means_mode"], c["thr"])))
     for c in pool:
         if c["added"]:
             res.nontrivial.add(repr((c["cards"], c["arg"])))
     for c in spv:
         if c["impl"][0] == "ok" and any(abs(u - ue) > 0 or True for u, d, ue in c["impl"][1] if d):
-            res.nontrivial.add(repr((c["cvrs"], c["mvrs"], [a["margin"] for a in c["asns"]])))
+            res.nontrivial.add(repr((c["objs"], c["cvrs"], [a["margin"] for a in c["asns"]])))
     res.rule = ("worlds of 1-3 contests (plurality / super-majority / IRV from json) x 2-14 cards built with the library: phantoms "
                 "by hand and by CVR.make_phantoms (inside/outside pools, not listing every contest), pooled and unpooled "
                 "batches with per-card pool flags, one MVR per card (same / re-voted / lacking contests / not found / "
